@@ -2004,6 +2004,8 @@ func (fr *Frame) atCallAsserts(c *ssa.CallCommon, callee *ssa.Function, args []V
 		}
 		o := x.oblige("assert", shortName(cl.Names[0])+":"+lbl, pos, pc, t)
 		o.Extra = map[string]string{"assert": cl.Src}
+		// assert-then-assume: once obliged, the fact is available to what follows (a proof step)
+		x.assume(pc, t, "asserted at call of "+cl.Names[0]+": "+cl.Src)
 	}
 }
 
